@@ -9,7 +9,7 @@
     (The early exit of the scan on `candidate.freq < victims.freq` is proved never to change
     the outcome.)  The concurrent cache (sync after every op) runs the same decision inside
     handle_upsert; it is tied by the lock-step correspondence and the prediction oracle. *)
-From MM Require Import Unsync.UInvDefs Unsync.UInv Unsync.UPolicyDefs Unsync.UPolicy.
+From MM Require Import Unsync.UInvDefs Unsync.UInv Unsync.UPolicyDefs Unsync.UPolicy Sync.SInvDefs Sync.SPolicyDefs Sync.SPolicy.
 
 Theorem C13_unsync_admission : forall c s now k v s1 ts s',
   cfg_ok c -> WF' c s -> small s ->
@@ -36,5 +36,36 @@ Theorem C13_unsync_oversized_rejected : forall c s now k v s1 ts s' cap,
   view s' = view s1 /\ u_prob s' = u_prob s1 /\ u_ws s' = u_ws s1.
 Proof. exact u_insert_oversized. Qed.
 
+(** concurrent cache with maintenance after every operation: what the next maintenance run does
+    with the pending write op of a fresh insert (the only thing queued): no capacity / fits =>
+    admitted, nothing evicted; heavier than the capacity => rejected, nothing touched; otherwise
+    admitted IFF the shortest LRU prefix reaching its weight exists and its estimate is strictly
+    greater than the prefix's summed estimates — then exactly that prefix is evicted — else the
+    newcomer is removed and no resident is touched *)
+Theorem C13_sync_admission : forall c s k ve w s',
+  scfg_ok c -> SInv c s -> s_small s -> pending_insert c s k ve w ->
+  apply_writes c s 1 = Ok s' ->
+  SInv c s' /\ quiescent s' /\
+  match sc_cap c with
+  | None =>
+      s_view s' = s_view s /\ s_lru_keys s' = s_lru_keys s ++ [k] /\ s_ws s' = s_ws s + w
+  | Some cap =>
+    if s_ws s + w <=? cap then
+      s_view s' = s_view s /\ s_lru_keys s' = s_lru_keys s ++ [k] /\ s_ws s' = s_ws s + w
+    else if cap <? w then
+      s_view s' = delete k (s_view s) /\ s_prob s' = s_prob s /\ s_wo s' = s_wo s /\ s_ws s' = s_ws s
+    else match tinylfu_victims (s_lru_triples s) w (frequency (s_sk s) (sc_hash c k)) with
+         | Some p =>
+             s_view s' = delete_keys (p.*1.*1) (s_view s) /\
+             s_lru_keys s' = drop (length p) (s_lru_keys s) ++ [k] /\
+             p.*1.*1 = take (length p) (s_lru_keys s) /\
+             s_ws s' + sum_w p = s_ws s + w
+         | None =>
+             s_view s' = delete k (s_view s) /\ s_prob s' = s_prob s /\ s_wo s' = s_wo s /\ s_ws s' = s_ws s
+         end
+  end.
+Proof. exact s_pending_insert_outcome. Qed.
+
+Print Assumptions C13_sync_admission.
 Print Assumptions C13_unsync_admission.
 Print Assumptions C13_unsync_oversized_rejected.
